@@ -167,7 +167,7 @@ func MergeReq(h *vsched.H) {
 	script := h.Param("script", 0)
 	filters := c08Filters(h.Param("filt", 0))
 	// event pool: kind 1 matches; created_at chosen so that children's lists interleave and tie
-	e30, e20, e10, e20b := Ev('a', '1', 1, 30), Ev('b', '1', 1, 20), Ev('c', '2', 1, 10), Ev('d', '2', 1, 20)
+	e30, e20, e10, e20b := Ev('a', '1', 1, 30), Ev('b', '1', 1, 20), Ev('c', '2', 1, 0), Ev('d', '2', 1, 20) // the oldest one has created_at 0: a timestamp like any other
 	junk := Ev('e', '2', 7, 25)
 	l1, l2, l3 := Ev('f', '1', 1, 5), Ev('0', '1', 1, 40), Ev('9', '2', 1, 40)
 	trig := make(chan struct{})
